@@ -194,6 +194,9 @@ class DateTimeUnits(Sub):
     rule = ("(zone, instant biased to days with a skipped/repeated first or last wall time, provenance, week configuration) x units x {start_of, end_of}; "
             "non-trivial: the unit boundary wall time is not unique, or the value is within a gap length of a transition, or the week does not start on Monday")
 
+    def describe(self, case):
+        return {"value": T.render(case["u"], case["zone"]).isoformat()}
+
     def strategy(self, ctx):
         return dt_case()
 
